@@ -463,6 +463,39 @@ def random_spec(rng: random.Random, features: set[str]) -> dict:
     return {"stages": stages}
 
 
+CHILD_SCRIPTS = [["ok"], ["ok"], ["ok:k{n}=1"], ["run", "ok"], ["fail"], ["failc"], ["trans", "ok"]]
+
+
+def decorate(spec: dict, rng: random.Random) -> dict:
+    """feature-rich variant of a random DAG: synthetic before / after / on-failure children on some stages and one
+    bounded jump (backward or onto itself).  Draws from its own rng."""
+    spec = json.loads(json.dumps(spec))
+    stages = spec["stages"]
+
+    def child(ref, chain=False):
+        nt = rng.choice([1, 1, 2])
+        c = {"ref": ref, "reqs": [], "tasks": [[x.replace("{n}", str(rng.randint(1, 6))) for x in rng.choice(CHILD_SCRIPTS)] for _ in range(nt)]}
+        if chain:
+            c["chain"] = True
+        return c
+    for st in stages:
+        if rng.random() < 0.35:
+            nb, na = rng.choice([0, 1, 1, 2]), rng.choice([0, 0, 1, 2])
+            if nb:
+                st["before"] = [child(f"{st['ref']}.b{k}", chain=(k > 0 and rng.random() < 0.5)) for k in range(nb)]
+            if na:
+                st["after"] = [child(f"{st['ref']}.a{k}", chain=(k > 0 and rng.random() < 0.5)) for k in range(na)]
+            if rng.random() < 0.3:
+                st["on_failure"] = [child(f"{st['ref']}.f0")]
+    cands = [i for i, st in enumerate(stages) if st.get("tasks")]
+    if cands and rng.random() < 0.6:
+        i = rng.choice(cands)
+        j = rng.randint(0, i)
+        t = rng.randrange(len(stages[i]["tasks"]))
+        stages[i]["tasks"][t] = ["jump:S%d" % j, "ok"]
+    return spec
+
+
 # ------------------------------------------------------------------------------------------------
 # schedule policies (chosen online from the real queue)
 # ------------------------------------------------------------------------------------------------
@@ -683,6 +716,9 @@ CRASH_QUICK = ["chain3", "diamond", "multitask", "fail_terminal", "continue_on_f
                "jsyn_cycle", "jsyn_after_child_jumps"]
 
 
+RANDX_QUICK = int(os.environ.get("VERIF_RANDX", "10"))
+
+
 def spec_key(spec) -> str:
     return json.dumps(spec, sort_keys=True)
 
@@ -704,8 +740,11 @@ def plan(pid: str, tier: str, rng: random.Random) -> list[dict]:
                     add(kind="policy", policy=pol, spec=spec, name=name)
 
     rnd = [("rand%d" % i, random_spec(rng, {"joins", "skip"})) for i in range(120 if thorough else 25)]
+    # feature-rich variants (synthetic children, one bounded jump) of some of them; own rng, the stream above is unchanged
+    rng2 = random.Random(rng.randrange(1 << 30) if False else (len(rnd) * 7919 + sum(len(sp["stages"]) for _, sp in rnd)))
+    rndx = [("randx%d" % i, decorate(sp, rng2)) for i, (_, sp) in enumerate(rnd[: (60 if thorough else RANDX_QUICK)])]
     if pid in ("C02", "C03", "C05", "C06", "C09"):
-        schedules(list(fam.items()) + rnd, ["fifo", "lifo", "random", "redeliver"], 6 if thorough else 2)
+        schedules(list(fam.items()) + rnd + rndx, ["fifo", "lifo", "random", "redeliver"], 6 if thorough else 2)
         # starve every stage in turn: its messages are delivered only when nothing else is pending
         for name, spec in list(fam.items()) + rnd[: (40 if thorough else 8)]:
             for st in spec["stages"]:
@@ -734,14 +773,17 @@ def plan(pid: str, tier: str, rng: random.Random) -> list[dict]:
             for name, spec in rnd[:40]:
                 for at in range(0, 60, 3):
                     add(kind="crash", at=at, spec=spec, name=name, drain="fifo")
+        for name, spec in rndx[: (30 if thorough else 4)]:
+            for at in range(0, 80 if thorough else 48, 2):
+                add(kind="crash", at=at, spec=spec, name=name, drain=("fifo" if at % 4 else "lifo"))
     if pid in ("C10", "C06"):
-        for n, spec in list(fam.items()) + (rnd[:30] if thorough else rnd[:6]):
+        for n, spec in list(fam.items()) + (rnd[:30] if thorough else rnd[:6]) + (rndx[:30] if thorough else rndx[:6]):
             for at in range(0, 40 if thorough else 24):
                 add(kind="inject", what="recover", at=at, times=1 + (at % 2), spec=spec, name=n,
                     policy=("fifo" if at % 3 else "lifo"))
             add(kind="inject", what="recover_every", at=-1, spec=spec, name=n, policy="fifo", max_steps=80)
     if pid in ("C17", "C06"):
-        for n, spec in list(fam.items()) + (rnd[:30] if thorough else rnd[:6]):
+        for n, spec in list(fam.items()) + (rnd[:30] if thorough else rnd[:6]) + (rndx[:30] if thorough else rndx[:6]):
             for at in range(0, 40 if thorough else 24):
                 for pol in (("fifo", "random", "lifo") if thorough else ("fifo", "random")):
                     add(kind="inject", what="cancel", at=at, spec=spec, name=n, policy=pol)
